@@ -467,3 +467,25 @@ Proof.
   split; [vm_compute; reflexivity|]. split; [vm_compute; discriminate|].
   split; [vm_compute; reflexivity|]. vm_compute; discriminate.
 Qed.
+
+(* ------------------------------------------------------------------ combine-segs end to end *)
+Lemma in_combine_map {A B C} (g : B -> C) : forall (l1 : list A) (l2 : list B) a b,
+  In (a, b) (combine l1 l2) -> In (a, g b) (combine l1 (map g l2)).
+Proof.
+  induction l1 as [|x r IH]; intros l2 a b H; [contradiction|].
+  destruct l2 as [|y l2']; [contradiction|]. cbn [combine map] in *.
+  destruct H as [H | H]; [inversion H; subst; left; reflexivity | right; apply IH; exact H].
+Qed.
+
+Lemma mux_end_to_end ids xs id x :
+  NoDup ids -> In (id, x) (combine ids xs) ->
+  trun_indep_of_trex (mi_frag x) (mi_trun x) = true ->
+  contiguous_list (mux_read true x) = true ->
+  read_track (fo_trafs (combine_inputs ids xs)) id = Some (mux_read true x).
+Proof.
+  intros Hnd Hin Hind Hc. unfold combine_inputs.
+  assert (E : mux_read false x = mux_read true x).
+  { unfold mux_read. rewrite (read_trun_indep _ _ _ (mi_trex x) Hind). reflexivity. }
+  apply mux_conserves; [exact Hnd | | exact Hc].
+  rewrite <- E. apply in_combine_map. exact Hin.
+Qed.
